@@ -6,12 +6,12 @@ HOME = os.path.dirname(os.path.dirname(os.path.abspath(__file__)))
 MC = "model_checking"
 CHECKS = {
  "C04": dict(
-   technique="TLA+ reference decoder with transport cuts (WSRecv!RunCut) evaluated by TLC over all valid streams; every byte offset of every stream replayed into the real Conn with EOF and error terminations and compared with the specification",
+   technique="TLA+ reference decoder with transport cuts (WSRecv!RunCut) evaluated by TLC over all valid streams; every byte offset of every stream replayed into the real Conn with EOF and error terminations and compared with the specification; TLC trace validation (spec/TraceRecv.tla, which reuses WSRecv's action PeerSend) of the library's own read-side hook events: a clean end of message only after a completely consumed FIN frame",
    text="TLC enumerates every valid stream of <=3 (quick) / <=4 (thorough) frames and predicts, per cut class, which messages are complete, which bytes may have been handed over and that the final read fails; the harness cuts the concrete byte stream at every offset (EOF and injected error), in both roles, several read-buffer sizes and through Conn.Reader and Conn.Read. Exhaustive within the bound.",
    note="Trusted: TLC, Go compress/flate, the harness frame encoder and its offset-to-cut-class mapping.",
    design="6/C04"),
  "C08": dict(
-   technique="TLA+ read-limit rule (WSRecv!LimitOutcome) evaluated by TLC over limits x sizes x fragmentations x compression; rows replayed into the real Conn; allocation measured around the receive",
+   technique="TLA+ read-limit rule (WSRecv!LimitOutcome) evaluated by TLC over limits x sizes x fragmentations x compression; rows replayed into the real Conn; allocation measured around the receive; TLC trace validation (spec/TraceRecv.tla) of the bytes handed over per message against the limit in force when the message started",
    text="TLC writes the expected outcome (deliver in full / fail after at most limit+1 bytes with Close 1009) for every row of the limit grammar including limit changes between messages, huge declared lengths and decompression bombs; the harness replays them in both roles with three read-buffer sizes and measures TotalAlloc sequentially for the memory clause.",
    note="Trusted: TLC, Go compress/flate. The memory bound is a measured quantity with fixed slack (512 KiB), not derived by TLC.",
    design="6/C08"),
@@ -101,7 +101,7 @@ CHECKS = {
    note="JSON codec fidelity is encoding/json's; the specification covers message/close/pool behaviour around it.",
    design="6/C19"),
  "C03": dict(
-   technique="TLA+ reference decoder (spec/WSRecv.tla) model-checked by TLC; TLC-generated behaviours (all frame streams up to a length bound) replayed into the real Conn and compared with the specification's predicted reaction",
+   technique="TLA+ reference decoder (spec/WSRecv.tla) model-checked by TLC; TLC-generated behaviours (all frame streams up to a length bound) replayed into the real Conn and compared with the specification's predicted reaction; TLC trace validation (spec/TraceRecv.tla): the library's read-side hook events of sampled connections are replayed through WSRecv's own action PeerSend and every reaction (message start, control processing, close, bytes handed over, frame alignment, headers parsed = headers sent) is compared with React",
    text="TLC checks the reference decoder automaton and enumerates every frame stream of <=3 (quick) / <=4 (thorough) letters over a 43-letter alphabet of valid and single-violation frames; each is serialised by an independent raw peer and fed to a real Conn in both roles, compression modes and transport chunkings; messages, Pongs, Close echo, failing read and absence of panics are compared with React/Run. Exhaustive within the alphabet and length bound.",
    note="Trusted: TLC, Go compress/flate as reference codec, the harness frame encoder (written from RFC 6455). UTF-8, non-minimal lengths and output of malformed DEFLATE are left unspecified as in the property.",
    design="6/C03"),
